@@ -846,7 +846,8 @@ class Comparison(Predicate):
 
     @functools.cached_property
     def factors(self: 'Comparison') -> 'dsl.Predicate.Factors':
-        return Predicate.Factors(self) if len({f.origin for f in Column.dissect(self)}) == 1 else Predicate.Factors()
+        origins = {f.origin for f in Element.dissect(self)}  # a factor involves one table and nothing else
+        return Predicate.Factors(self) if len(origins) == 1 and Column.dissect(self) else Predicate.Factors()
 
 
 class LessThan(Comparison, Infix):
